@@ -40,7 +40,7 @@ func main() {
 	flag.StringVar(&o.evidence, "evidence", "/verif/evidence", "evidence directory")
 	flag.StringVar(&o.known, "known", "/verif/KNOWN_FINDINGS.json", "known findings file")
 	flag.IntVar(&o.seed, "seed", 0, "seed")
-	flag.IntVar(&o.workers, "workers", 12, "parallel obligations")
+	flag.IntVar(&o.workers, "workers", 6, "parallel obligations")
 	flag.StringVar(&o.only, "only", "", "substring filter on function name (debug)")
 	flag.StringVar(&o.dump, "dump", "", "dump SSA of function (pkgpath::name)")
 	flag.BoolVar(&o.verbose, "v", false, "verbose")
